@@ -2,7 +2,7 @@
    TCPProxy/UDPProxy/TCPGroupCtl objects over real managers (driver `pxy`) and of an in-process
    frps (driver `portsys`) against Model/Ports.v and Model/PortSrv.v, plus the property monitors
    evaluated on the observed traces themselves. *)
-From FRP Require Export Corr.Common Model.Ports Model.PortSrv Model.PortSched.
+From FRP Require Export Corr.Common Model.Ports Model.PortSrv Model.PortSched Model.PortCfg Proofs.PortCfgProofs.
 Open Scope Z_scope.
 
 (* ---------- shared comparisons (Go maps are unordered: everything is compared as a set) ---------- *)
@@ -437,11 +437,33 @@ Definition sched_branches (ranges : list prange) (ths : list (Z * sthread)) (sch
                   (ss_ths s)
   end.
 
+(* ---------- driver `cfgload`: allowPorts / maxPortsPerClient as written in a configuration file ---------- *)
+(* fmt 0 = legacy ini (text = the allow_ports value as written), 1 toml, 2 yaml, 3 json (structured: text unused).
+   intended = what the operator wrote, as ranges; nfree / init_free = the tcp manager's free table of the frps
+   started from the loaded file (list capped at 300 entries); loaded_max = MaxPortsPerClient after loading *)
+Definition cfg_code (fmt : Z) (text : string) (intended : list prange) (maxp loaded_max nfree : Z)
+                    (init_free : list Z) (steps : list ystep) : Z :=
+  let want := pm_free (pm_new intended) in
+  (* the property: the enforced set is the configured set, the enforced quota the configured quota *)
+  if negb ((nfree =? Z.of_nat (length want)) && zset_eq init_free want) then 71
+  else if negb (loaded_max =? maxp) then 73
+  else
+    (* the loader's model (ini only): today's parser applied to the text as written *)
+    let model_ok :=
+      if fmt =? 0 then
+        match legacy_allow_ports today_trim text with
+        | [] => nfree =? 65535
+        | rs => zset_eq init_free (pm_free (pm_new rs))
+        end
+      else true in
+    if negb model_ok then 72 else ysteps_code intended maxp steps.
+
 Inductive case :=
 | CPorts (ranges : list prange) (init : snap) (steps : list mstep)
 | CPxy (cfg : xcfg) (steps : list xstep)
 | CSys (cfg : xcfg) (maxp : Z) (steps : list ystep)
-| CSched (ranges : list prange) (ths : list (Z * sthread)) (sched : list (Z * Z)) (ob : sobs).
+| CSched (ranges : list prange) (ths : list (Z * sthread)) (sched : list (Z * Z)) (ob : sobs)
+| CCfg (fmt : Z) (text : string) (intended : list prange) (maxp loaded_max nfree : Z) (init_free : list Z) (steps : list ystep).
 
 Definition check_case (c : case) : Z :=
   match c with
@@ -456,6 +478,7 @@ Definition check_case (c : case) : Z :=
   | CPxy cfg steps => xsteps_code cfg steps
   | CSys cfg maxp steps => ysteps_code cfg maxp steps
   | CSched ranges ths sched ob => sched_code ranges ths sched ob
+  | CCfg fmt text intended maxp lm nfree init steps => cfg_code fmt text intended maxp lm nfree init steps
   end.
 
 Definition case_branches (c : case) : list Z :=
@@ -464,6 +487,7 @@ Definition case_branches (c : case) : list Z :=
   | CPxy cfg steps => xsteps_branches cfg steps
   | CSys cfg maxp steps => ysteps_branches cfg maxp steps
   | CSched ranges ths sched _ => sched_branches ranges ths sched
+  | CCfg fmt _ intended maxp _ _ _ steps => (80 + fmt) :: ysteps_branches intended maxp steps
   end.
 
 Definition count_branch (k : Z) (cs : list case) : Z :=
